@@ -33,6 +33,7 @@ from pathlib import Path
 from src.core.base import BaseLintContext, MultiLanguageLintRule
 from src.core.linter_utils import load_linter_config, project_relative_path
 from src.core.types import Violation
+from src.linter_config.directive_markers import has_same_line_ignore_directive
 from src.linter_config.ignore import get_ignore_parser
 
 from .config import MethodPropertyConfig
@@ -331,7 +332,7 @@ class MethodPropertyRule(MultiLanguageLintRule):  # thailint: ignore[srp,dry]
         line_lower = line_text.lower()
 
         # Check for thailint: ignore[method-property] (a directive naming another rule does not apply)
-        if "thailint:" in line_lower and "ignore" in line_lower:
+        if has_same_line_ignore_directive(line_lower):
             if "ignore[" not in line_lower:
                 return True  # generic ignore (optionally followed by a reason)
             return get_ignore_parser().has_line_ignore(line_text, violation.line, violation.rule_id)
